@@ -6,6 +6,7 @@ import (
 	"net/http"
 	"strconv"
 	"strings"
+	"time"
 
 	"github.com/Dash-Industry-Forum/livesim2/pkg/patch"
 )
@@ -75,6 +76,12 @@ func (s *Server) patchHandlerFunc(w http.ResponseWriter, r *http.Request) {
 	case err != nil:
 		slog.Error("MPDDiff", "err", err)
 		http.Error(w, "MPDDiff", http.StatusInternalServerError)
+		return
+	}
+	// The time-to-live also counts against the time of the request: an MPD whose publishTime changes rarely
+	// (e.g. $Number$ templates with several periods) must not be patched long after its time-to-live.
+	if nowMS, _, errHT := cfgFromRequest(r, slog.Default()); errHT == nil && time.UnixMilli(int64(nowMS)).After(expiration) {
+		http.Error(w, patch.ErrPatchTooLate.Error(), http.StatusGone)
 		return
 	}
 	doc.Indent(2)
